@@ -350,4 +350,196 @@ Definition executeDecimalMethod (p s : option Z) (num : f64) : f64 + err :=
       end
   end.
 
+
+(* ---------- item methods as leaf functions ----------
+   A leaf step maps one item to one item or to an error.  Arrays are unwrapped
+   by the caller (Exec.execLeaf / Sem) before the leaf function is applied; an
+   array that reaches the leaf function is an error (except .type(), .size()). *)
+Inductive leaf := LItem (v : json) | LErr (e : err).
+
+Definition nan_or_inf (f : f64) : bool := f_is_inf f || f_is_nan f.
+
+Definition two63f : f64 := S754_finite false 4503599627370496 11.      (* 2^63 = float64(math.MaxInt64) *)
+Definition mtwo63f : f64 := S754_finite true 4503599627370496 11.      (* -2^63 = float64(math.MinInt64) *)
+Definition f_geb (a b : f64) : bool := match fcmp a b with Some Gt | Some Eq => true | _ => false end.
+Definition bigint_out_of_range (f : f64) : bool :=
+  f_geb f two63f || f_ltb f mtwo63f || f_is_inf f || f_is_nan f.
+
+Definition leaf_type (v : json) : leaf := LItem (JStr (type_name v)).
+
+Definition leaf_size (laxm ign : bool) (v : json) : leaf :=
+  match v with
+  | JArr _ es => LItem (JNum (NInt (Z.of_nat (List.length es))))
+  | _ => if negb laxm && negb ign then LErr (EVerbose ".size() can only be applied to an array")
+         else LItem (JNum (NInt 1))
+  end.
+
+Definition leaf_double (v : json) : leaf :=
+  let finish (d : f64) := if nan_or_inf d then LErr (EVerbose "NaN or Infinity is not allowed for .double()")
+                          else LItem (JNum (NFlt d)) in
+  let bad := LErr (EVerbose ".double(): invalid for type double precision") in
+  match v with
+  | JNum (NInt z) => finish (xl_of_Z L z)
+  | JNum (NFlt f) => finish f
+  | JNum (NJs t) => match js_float64 t with Some (f, false) => finish f | _ => bad end
+  | JStr t => match xl_parse_float L t with Some (f, false) => finish f | _ => bad end
+  | _ => LErr (EVerbose ".double() can only be applied to a string or numeric value")
+  end.
+
+Definition leaf_integer (v : json) : leaf :=
+  let bad := LErr (EVerbose ".integer(): invalid for type integer") in
+  let finish (z : Z) := if in_int32 z then LItem (JNum (NInt z)) else bad in
+  match v with
+  | JNum (NInt z) => finish z
+  | JNum (NFlt f) => finish (xl_to_int64 L (xl_round L f))
+  | JNum (NJs t) =>
+      match js_int64 t with
+      | Some z => finish z
+      | None => match js_float64 t with
+                | Some (f, false) => finish (xl_to_int64 L (xl_round L f))
+                | _ => bad
+                end
+      end
+  | JStr t => match xl_parse_int L 10 32 t with Some z => finish z | None => bad end
+  | _ => LErr (EVerbose ".integer() can only be applied to a string or numeric value")
+  end.
+
+Definition leaf_bigint (v : json) : leaf :=
+  let bad := LErr (EVerbose ".bigint(): invalid for type bigint") in
+  let of_float (f : f64) :=
+    if bigint_out_of_range f then bad else LItem (JNum (NInt (xl_to_int64 L (xl_round L f)))) in
+  match v with
+  | JNum (NInt z) => LItem (JNum (NInt z))
+  | JNum (NFlt f) => of_float f
+  | JNum (NJs t) =>
+      match js_int64 t with
+      | Some z => LItem (JNum (NInt z))
+      | None => match js_float64 t with
+                | Some (f, false) => of_float f
+                | _ => bad
+                end
+      end
+  | JStr t => match xl_parse_int L 10 64 t with Some z => LItem (JNum (NInt z)) | None => bad end
+  | _ => LErr (EVerbose ".bigint() can only be applied to a string or numeric value")
+  end.
+
+Definition leaf_string (v : json) : leaf :=
+  match v with
+  | JStr t => LItem (JStr t)
+  | JDt d => LItem (JStr (xl_dt_string L d))
+  | JNum (NJs t) => LItem (JStr t)
+  | JNum (NInt z) => LItem (JStr (xl_format_int L z))
+  | JNum (NFlt f) => LItem (JStr (xl_format_float L f))
+  | JBool b => LItem (JStr (if b then "true" else "false"))
+  | _ => LErr (EVerbose ".string() can only be applied to a boolean, string, numeric, or datetime value")
+  end.
+
+Definition leaf_boolean (v : json) : leaf :=
+  let bad := LErr (EVerbose ".boolean(): invalid for type boolean") in
+  let of_float (f : f64) :=
+    if negb (f_eqb f (xl_trunc L f)) then bad else LItem (JBool (negb (f_eqb f (S754_zero false)))) in
+  match v with
+  | JBool b => LItem (JBool b)
+  | JNum (NInt z) => LItem (JBool (negb (z =? 0)))
+  | JNum (NFlt f) => of_float f
+  | JNum (NJs t) => match js_float64 t with Some (f, false) => of_float f | _ => bad end
+  | JStr t => match execBooleanString t with Some b => LItem (JBool b) | None => bad end
+  | _ => LErr (EVerbose ".boolean() can only be applied to a boolean, string, or numeric value")
+  end.
+
+(* .number() (dec = None) and .decimal(p,s) (dec = Some (p,s)) *)
+Definition leaf_number (dec : option (option Z * option Z)) (v : json) : leaf :=
+  let bad := LErr (EVerbose ".number(): invalid for type numeric") in
+  let finish (num : f64) :=
+    if nan_or_inf num then LErr (EVerbose "NaN or Infinity is not allowed for .number()")
+    else
+      match dec with
+      | None => LItem (JNum (NFlt num))
+      | Some (p, sc) =>
+          match executeDecimalMethod p sc num with
+          | inr e => LErr e
+          | inl num' => LItem (JNum (NFlt num'))
+          end
+      end in
+  match v with
+  | JNum (NFlt f) => finish f
+  | JNum (NInt z) => finish (xl_of_Z L z)
+  | JNum (NJs t) => match js_float64 t with Some (f, false) => finish f | _ => bad end
+  | JStr t => match xl_parse_float L t with Some (f, false) => finish f | _ => bad end
+  | _ => LErr (EVerbose ".number() can only be applied to a string or numeric value")
+  end.
+
+(* .abs() .floor() .ceiling() *)
+Definition leaf_numeric (icb : Z -> Z) (fcb : f64 -> f64) (v : json) : leaf :=
+  let bad := LErr (EVerbose "numeric item method can only be applied to a numeric value") in
+  match v with
+  | JNum (NInt z) => LItem (JNum (NInt (icb z)))
+  | JNum (NFlt f) => LItem (JNum (NFlt (fcb f)))
+  | JNum (NJs t) => match castJSONNumber t icb fcb with
+                    | Some num => LItem (JNum num)
+                    | None => bad
+                    end
+  | _ => bad
+  end.
+
+(* Some (unwraps arrays in lax mode?, leaf function); None for .keyvalue() *)
+Definition method_leaf (laxm ign : bool) (m : meth) : option (bool * (json -> leaf)) :=
+  match m with
+  | MNumber => Some (true, leaf_number None)
+  | MAbs => Some (true, leaf_numeric intAbs fabs)
+  | MFloor => Some (true, leaf_numeric (fun x => x) (xl_floor L))
+  | MCeiling => Some (true, leaf_numeric (fun x => x) (xl_ceil L))
+  | MType => Some (false, leaf_type)
+  | MSize => Some (false, leaf_size laxm ign)
+  | MDouble => Some (true, leaf_double)
+  | MInteger => Some (true, leaf_integer)
+  | MBigInt => Some (true, leaf_bigint)
+  | MString => Some (true, leaf_string)
+  | MBoolean => Some (true, leaf_boolean)
+  | MKeyValue => None
+  end.
+
+(* datetime methods (executeDateTimeMethod) *)
+Definition leaf_datetime (useTZ : bool) (op : dtop) (tmpl : option string) (prec : option Z) (v : json) : leaf :=
+  match v with
+  | JStr dts =>
+      let parsed : datetime + err :=
+        match op, tmpl with
+        | DDateTime, Some _ => inr (EExec ".datetime(template) is not yet supported")
+        | _, _ =>
+            let precision : Z + err :=
+              match op, prec with
+              | DDateTime, _ | DDate, _ => inl (-1)
+              | _, None => inl (-1)
+              | _, Some p =>
+                  match getNodeInt32 p "time precision" with
+                  | inr e => inr e
+                  | inl p' => if p' <? 0 then inr (EVerbose "time precision is invalid")
+                              else inl (if p' >? 6 then 6 else p')
+                  end
+              end in
+            match precision with
+            | inr e => inr e
+            | inl p => match xl_parse_time L dts p with
+                       | Some d => inl d
+                       | None => inr (EVerbose "datetime format is not recognized")
+                       end
+            end
+        end in
+      match parsed with
+      | inr e => LErr e
+      | inl d =>
+          match op with
+          | DDateTime => LItem (JDt d)
+          | _ => match xl_cast L op useTZ d with
+                 | CastOk d' => LItem (JDt d')
+                 | CastNotRecognized => LErr (EVerbose "datetime format is not recognized")
+                 | CastTZRequired => LErr (EExec "cannot convert value without time zone usage")
+                 | CastInvalid => LErr (EInvalid "datetime type not supported")
+                 end
+          end
+      end
+  | _ => LErr (EVerbose "jsonpath item datetime method can only be applied to a string")
+  end.
+
 End WithLib.
